@@ -562,10 +562,10 @@ def opSupArrive (a : Actor) (e : SupEv) : M :=
 
 /-- My supervisor runs `terminate()`: `take_children` detaches me (my supervisor link is cleared —
 I am in its child set only while it is my supervisor, `SupervisionTree::link`), then the worklist
-kills me if my status is `<= Upgrading` and takes *my* children. -/
+kills me if my status is `< Stopping` (repo fix a9fecd6; it was `<= Upgrading`) and takes *my* children. -/
 def opTreeTaken (a : Actor) : M :=
   let a1 : Actor := { a with sup := none }
-  let a2 : Actor := if a1.status.rank ≤ Status.upgrading.rank then (apiKill a1).1 else a1
+  let a2 : Actor := if a1.status.rank < Status.stopping.rank then (apiKill a1).1 else a1
   ({ a2 with kids := none }, [.eff (.cascade (a2.kids.getD []))])
 
 /-- API calls and environment ops on an existing cell. -/
@@ -791,7 +791,7 @@ def statusTable : List (String × Nat) :=
    ("Stopped", Status.stopped.rank)]
 
 /-- `opTreeTaken` kills a child whose status satisfies this (`ActorCell::terminate`). -/
-def terminateKillCondition : String := "<= Upgrading"
+def terminateKillCondition : String := "< Stopping"
 
 /-! ### Property predicates on one actor's trace
 
